@@ -1,6 +1,7 @@
 package main
 
 import (
+	"bytes"
 	"errors"
 	"fmt"
 	"math/big"
@@ -201,19 +202,45 @@ func runC01(c *Ctx) error {
 		circ := GenCircuit(r, opts)
 		overwrites := false
 		if i%60 == 59 {
-			// directed: a parser-accepted circuit whose first gate overwrites input
-			// wire 0 (the case the C01 theorem's wf hypothesis excludes; finding F35)
+			// directed: a circuit whose first gate overwrites input wire 0 (the case the C01
+			// theorem's wf hypothesis excludes; finding F35, repaired in /repo by 407ba55: the
+			// parsers reject such a gate).  The circuit is WRITTEN (Marshal / MarshalBristol) and
+			// read back through the parsers, the only entry points that could deliver it: when the
+			// parser rejects it, it is counted and skipped (a Go literal no entry point can produce
+			// is outside the quantifier); when a parser accepts it again, it is garbled and
+			// evaluated as before and the old key fires.
 			second := circuit.AND
 			if (i/60)%2 == 1 {
 				second = circuit.OR
 			}
-			circ = &circuit.Circuit{NumGates: 2, NumWires: 3,
+			lit := &circuit.Circuit{NumGates: 2, NumWires: 3,
 				Gates: []circuit.Gate{{Input0: 0, Input1: 1, Output: 0, Op: circuit.XOR},
 					{Input0: 0, Input1: 1, Output: 2, Op: second}},
 				Inputs:  circuit.IO{{Name: "a", Type: uintInfo(2)}},
 				Outputs: circuit.IO{{Name: "r", Type: uintInfo(1)}}}
-			circ.Stats[circuit.XOR]++
-			circ.Stats[second]++
+			lit.Stats[circuit.XOR]++
+			lit.Stats[second]++
+			var file bytes.Buffer
+			var parsed *circuit.Circuit
+			var perr error
+			if (i/120)%2 == 0 {
+				if err := lit.Marshal(&file); err != nil {
+					return fmt.Errorf("case %d: Marshal: %v", i, err)
+				}
+				parsed, perr = circuit.ParseMPCLC(&file)
+				c.Hist("circuit:gate-writes-input-wire:written-as-mpclc")
+			} else {
+				if err := lit.MarshalBristol(&file); err != nil {
+					return fmt.Errorf("case %d: MarshalBristol: %v", i, err)
+				}
+				parsed, perr = circuit.ParseBristol(&file)
+				c.Hist("circuit:gate-writes-input-wire:written-as-bristol")
+			}
+			if perr != nil {
+				c.Hist("circuit:gate-writes-input-wire:rejected-by-parser")
+				continue
+			}
+			circ = parsed
 			overwrites = true
 			c.Hist("circuit:gate-writes-input-wire")
 		}
